@@ -65,6 +65,11 @@ type c01Client struct {
 	latMs    int
 	abort    bool
 	mayFail  bool
+	// quit: a raw client that reads the response head and a little of a large body
+	// and then hangs up (the proxy's write to it fails); slowRead: reads the body in
+	// small pieces with pauses, so that the proxy's writes to it block
+	quit     bool
+	slowRead bool
 	// trMode: how the backend sends its trailers for this request: 0 announced,
 	// 1 not announced (plus a second unannounced one), 2 no trailers at all
 	trMode  int
@@ -148,6 +153,20 @@ func worldC01(w *World) {
 		}
 		clients = append(clients, later...)
 	}
+	// clients that hang up in the middle of a large response come first; everybody
+	// else starts once they are gone, some of them reading slowly
+	var quitters []*c01Client
+	if faulty && !restart && t.Rare(1, 3, "quitters") {
+		nq := t.Range(1, 3, "nquitters")
+		for i := 0; i < nq; i++ {
+			quitters = append(quitters, &c01Client{tok: fmt.Sprintf("quit%02d-%d", i, t.Choice(1000, "tokrand")), method: "GET", respSize: []int{100 << 10, 300 << 10}[t.Choice(2, "quitsize")], quit: true, mayFail: true, trMode: 2})
+		}
+		for _, c := range clients {
+			c.slowRead = t.Rare(1, 2, "slowread")
+		}
+		clients = append(clients, quitters...)
+		w.Probe("clients_hang_up_mid_response_before_the_others_start")
+	}
 	var seenMu sync.Mutex
 	seen := map[string]int{}
 
@@ -205,11 +224,24 @@ func worldC01(w *World) {
 	for i, c := range clients[:len(owner)] {
 		byOwner[owner[i]] = append(byOwner[owner[i]], c)
 	}
+	var qwg sync.WaitGroup
+	for qi, q := range quitters {
+		q := q
+		qwg.Add(1)
+		w.K.Spawn(fmt.Sprintf("quitter%d", qi), func() {
+			defer qwg.Done()
+			c01Do(w, nil, q, clients)
+		})
+	}
 	for oi := 0; oi < n; oi++ {
 		group := byOwner[oi]
 		wg.Add(1)
 		w.K.Spawn(fmt.Sprintf("client%d", oi), func() {
 			defer wg.Done()
+			if len(quitters) > 0 {
+				qwg.Wait()
+				time.Sleep(100 * time.Millisecond)
+			}
 			cl := w.Client()
 			for _, c := range group {
 				c01Do(w, cl, c, clients)
@@ -253,6 +285,30 @@ func worldC01(w *World) {
 
 // c01Do sends one client request and records what came back.
 func c01Do(w *World, cl *http.Client, c *c01Client, clients []*c01Client) {
+	if c.quit {
+		conn, err := sim.Dial("tcp", "proxy:80")
+		if err != nil {
+			c.err, c.done = err.Error(), true
+			return
+		}
+		fmt.Fprintf(conn, "GET /p/%s?t=%s HTTP/1.1\r\nHost: proxy\r\nX-Token: %s\r\nX-Resp-Size: %d\r\nX-Lat-Ms: 0\r\nX-Trailer-Mode: 2\r\n\r\n", c.tok, c.tok, c.tok, c.respSize)
+		buf := make([]byte, 4096)
+		got := 0
+		for got < 8192 {
+			n, err := conn.Read(buf)
+			got += n
+			if err != nil {
+				break
+			}
+		}
+		// let the proxy run into the full socket buffer, then hang up with data unread
+		time.Sleep(300 * time.Millisecond)
+		conn.Close()
+		time.Sleep(300 * time.Millisecond)
+		c.err, c.done = "hung up", true
+		w.K.Count("fault.client_hangs_up_mid_response")
+		return
+	}
 	{
 		{
 			var body io.Reader
@@ -274,7 +330,11 @@ func c01Do(w *World, cl *http.Client, c *c01Client, clients []*c01Client) {
 				c.done = true
 				return
 			}
-			b, err := io.ReadAll(resp.Body)
+			var rbody io.Reader = resp.Body
+			if c.slowRead {
+				rbody = &slowReader{r: resp.Body}
+			}
+			b, err := io.ReadAll(rbody)
 			resp.Body.Close()
 			if err != nil {
 				c.err = "body: " + err.Error()
@@ -297,6 +357,23 @@ func c01Do(w *World, cl *http.Client, c *c01Client, clients []*c01Client) {
 			c.done = true
 		}
 	}
+}
+
+// slowReader reads at most 8 KiB at a time and pauses now and then.
+type slowReader struct {
+	r io.Reader
+	n int
+}
+
+func (s *slowReader) Read(p []byte) (int, error) {
+	if len(p) > 8192 {
+		p = p[:8192]
+	}
+	s.n++
+	if s.n%3 == 0 {
+		time.Sleep(20 * time.Millisecond)
+	}
+	return s.r.Read(p)
 }
 
 func c01Finish(w *World, n int, faulty bool, clients []*c01Client, seen map[string]int) {
